@@ -19,6 +19,9 @@ func (k Keeper) ExecuteStandByStatus(ctx context.Context, auction types.AuctionI
 		if err := k.Auction.Set(ctx, auction.GetId(), auction); err != nil {
 			return err
 		}
+		// The end time may have been reached in this block as well: settle now
+		// rather than one block later, so that no bid is accepted after the end time.
+		return k.ExecuteStartedStatus(ctx, auction)
 	}
 	return nil
 }
